@@ -26,7 +26,9 @@ typedef struct { type_t type; int payload; } event_t;
 #define NSTATE_CAP 16
 
 typedef struct fsm {
-  int       m_states[NR_CAP];
+  int       m_states[NR_CAP];             /* back / back11 */
+  uint16_t  m_active_state_ids[NR_CAP];   /* backmp11 */
+  _Bool     m_running;                    /* backmp11 */
   _Bool     m_event_processing, m_is_included;
   slist_t   m_substate_list;
   int       m_history_last[NR_CAP];     /* history policy memory (Always/Shallow) */
